@@ -390,6 +390,6 @@ pub fn def() -> CheckDef {
                min(owed, vault); set-emissions accepted only if the vault holds a day of emissions.  Non-trivial = >=2 rewards, >=1 accepted rate change and a \
                position that left and re-entered range between two creditings.",
         assumptions: vec!["nsvm runtime as in DESIGN.md §5", "the harness owns the clock; one timestamp per instruction"],
-        subs: vec![sub("histories", 5000, 150_000, || history_strategy(true, false, 60), |c: &HistoryCase, l: &mut Local| check_history(c, l))],
+        subs: vec![sub("histories", 30_000, 600_000, || history_strategy(true, false, 60), |c: &HistoryCase, l: &mut Local| check_history(c, l))],
     }
 }
